@@ -34,6 +34,11 @@ type Store struct {
 	// right after it ended (commit or rollback)
 	OnBegin func(write bool)
 	OnEnd   func(write bool, err error)
+	// OnPreCommit: the write closure returned without error, the commit has not happened yet
+	OnPreCommit func()
+	// OnReadOp: a storage read (Get / scan) inside a READ transaction is about to happen
+	// (only when set: read transactions then see wrapped buckets)
+	OnReadOp func()
 }
 
 func Wrap(inner diskstore.DiskStore) *Store { return &Store{Inner: inner} }
@@ -50,6 +55,9 @@ func (s *Store) Read(f func(diskstore.BucketManager) error) error {
 	err := s.Inner.Read(func(bm diskstore.BucketManager) error {
 		if s.OnBegin != nil {
 			s.OnBegin(false)
+		}
+		if s.OnReadOp != nil {
+			bm = &rbm{s: s, inner: bm}
 		}
 		ferr = f(bm)
 		return ferr
@@ -73,6 +81,9 @@ func (s *Store) Write(f func(diskstore.BucketManager) error) error {
 		w := &bm2{s: s, plan: plan, inner: bm}
 		if err := f(w); err != nil {
 			return err
+		}
+		if s.OnPreCommit != nil {
+			s.OnPreCommit()
 		}
 		if plan.KillWhen == "pre" {
 			os.Exit(3)
@@ -170,5 +181,49 @@ func (b *bucket) RangeScan(st, en []byte, incl bool, f func(k, v []byte) error) 
 	if err := b.s.step(b.plan); err != nil {
 		return err
 	}
+	return b.inner.RangeScan(st, en, incl, f)
+}
+
+// read-side wrappers: every storage read of a read transaction passes OnReadOp
+
+type rbm struct {
+	s     *Store
+	inner diskstore.BucketManager
+}
+
+func (b *rbm) Get(name string) (diskstore.Bucket, error) {
+	bk, err := b.inner.Get(name)
+	if err != nil {
+		return nil, err
+	}
+	return &rbucket{s: b.s, inner: bk}, nil
+}
+
+func (b *rbm) Delete(name string) error { return b.inner.Delete(name) }
+
+type rbucket struct {
+	s     *Store
+	inner diskstore.Bucket
+}
+
+func (b *rbucket) op() {
+	if f := b.s.OnReadOp; f != nil {
+		f()
+	}
+}
+func (b *rbucket) IsReadOnly() bool      { return b.inner.IsReadOnly() }
+func (b *rbucket) Get(k []byte) []byte   { b.op(); return b.inner.Get(k) }
+func (b *rbucket) Put(k, v []byte) error { return b.inner.Put(k, v) }
+func (b *rbucket) Delete(k []byte) error { return b.inner.Delete(k) }
+func (b *rbucket) ForEach(f func(k, v []byte) error) error {
+	b.op()
+	return b.inner.ForEach(f)
+}
+func (b *rbucket) PrefixScan(p []byte, f func(k, v []byte) error) error {
+	b.op()
+	return b.inner.PrefixScan(p, f)
+}
+func (b *rbucket) RangeScan(st, en []byte, incl bool, f func(k, v []byte) error) error {
+	b.op()
 	return b.inner.RangeScan(st, en, incl, f)
 }
